@@ -54,6 +54,7 @@ type C07Scenario struct {
 	PlaceK    int                `json:"place_k"`
 	TOffsetS  int64              `json:"t_offset_s"` // snooze time relative to the instant pint runs
 	TFormat   int                `json:"t_format"`   // 0 RFC3339 Z, 1 +02:00, 2 -07:00, 3 date only
+	CRLF      bool               `json:"crlf"`       // rule files use Windows line endings
 	Watch     bool               `json:"watch"`      // also cross the snooze deadline inside the watch loop
 	IntervalS int64              `json:"interval_s"`
 }
@@ -107,6 +108,7 @@ func drawC07(rt *rapid.T) C07Scenario {
 	sc.PlaceK = rapid.IntRange(0, 6).Draw(rt, "placeK")
 	sc.TOffsetS = []int64{-40 * 86400, -86400, -3600, -61, -2, 2, 61, 3600, 86400, 400 * 86400}[rapid.IntRange(0, 9).Draw(rt, "toff")]
 	sc.TFormat = rapid.IntRange(0, 3).Draw(rt, "tfmt")
+	sc.CRLF = rapid.IntRange(0, 4).Draw(rt, "crlf") == 0
 	sc.Watch = rapid.IntRange(0, 3).Draw(rt, "watch") == 0
 	sc.IntervalS = []int64{1, 30, 600, 3600}[rapid.IntRange(0, 3).Draw(rt, "interval")]
 	return sc
@@ -406,13 +408,31 @@ func diffMultiset(want, got map[string]int) string {
 	return sb.String()
 }
 
+// onDisk converts the rule files to the line endings of the scenario (the model keeps LF).
+func onDisk(files []simFile, crlf bool) []simFile {
+	if !crlf {
+		return files
+	}
+	out := make([]simFile, 0, len(files))
+	for _, f := range files {
+		if strings.HasSuffix(f.Path, ".yml") {
+			f.Content = strings.ReplaceAll(f.Content, "\n", "\r\n")
+		}
+		out = append(out, f)
+	}
+	return out
+}
+
 func runC07(t *testing.T, sc C07Scenario, record bool) *detsim.Outcome {
 	out := &detsim.Outcome{Probes: map[string]int{}, Faults: map[string]int{}}
+	if sc.CRLF {
+		out.Probes["crlf_files"]++
+	}
 	startAt := time.Duration(sc.StartAtS) * time.Second
 	identity := func(_ string, l int) int { return l }
 
 	// run A: no comment
-	a := lintStructured(t, sc.Files, sc.Servers, sc.Workers, detsim.SchedConfig{Order: detsim.OrderOldest}, startAt, true, nil, false)
+	a := lintStructured(t, onDisk(sc.Files, sc.CRLF), sc.Servers, sc.Workers, detsim.SchedConfig{Order: detsim.OrderOldest}, startAt, true, nil, false)
 	out.Sched.Decisions += a.Stats.Decisions
 	out.SimNanos += a.SimNs
 	if !a.Live || a.Err != "" {
@@ -657,7 +677,7 @@ func runC07(t *testing.T, sc C07Scenario, record bool) *detsim.Outcome {
 	}
 
 	// run B: with the comment, same instant, the schedule under test
-	b := lintStructured(t, filesB, sc.Servers, sc.Workers, sc.Sched, startAt, false, nil, record)
+	b := lintStructured(t, onDisk(filesB, sc.CRLF), sc.Servers, sc.Workers, sc.Sched, startAt, false, nil, record)
 	out.Sched.Decisions += b.Stats.Decisions
 	out.Sched.Trace = b.Stats.Trace
 	out.Sched.Log = b.Stats.Log
@@ -705,7 +725,7 @@ func runC07(t *testing.T, sc C07Scenario, record bool) *detsim.Outcome {
 			interval = min // a few dozen iterations at most: every one is a full lint run
 		}
 		total := time.Duration(sc.TOffsetS)*time.Second + 2*interval + 5*time.Second
-		w := lintStructured(t, filesB, sc.Servers, sc.Workers, sc.Sched, startAt, false, &watchPlan{Interval: interval, Total: total, Poll: min(500*time.Millisecond, interval/4)}, false)
+		w := lintStructured(t, onDisk(filesB, sc.CRLF), sc.Servers, sc.Workers, sc.Sched, startAt, false, &watchPlan{Interval: interval, Total: total, Poll: min(500*time.Millisecond, interval/4)}, false)
 		out.SimNanos += w.SimNs
 		out.Sched.Decisions += w.Stats.Decisions
 		if !w.Live || w.Err != "" || len(w.Iterations) < 2 {
